@@ -360,7 +360,11 @@ func c08CheckSizes(rc *RunCtx, name string, c *dtls.Conn) bool {
 	case z.HandshakeCache > 300 && z.HandshakeCacheDup > z.HandshakeCache/2:
 		rc.Violate("bloat:handshake-cache:retransmitted-copies", "%s caches %d handshake messages, %d of them byte-identical copies of messages cached before (a handshake has a few dozen messages; one more copy is kept per retransmission)", name, z.HandshakeCache, z.HandshakeCacheDup)
 	case z.HandshakeCache > 300:
-		rc.Violate("bloat:handshake-cache:unsolicited-messages", "%s caches %d handshake messages (%d of them copies); a handshake has a few dozen: every complete cleartext handshake message that continues the message sequence is kept, whatever its type and whatever the handshake state", name, z.HandshakeCache, z.HandshakeCacheDup)
+		phase := "handshaking"
+		if len(rc.R.Class) > 4 && rc.R.Class[:4] == "est/" {
+			phase = "established"
+		}
+		rc.Violate("bloat:handshake-cache:unsolicited-messages:"+phase, "%s caches %d handshake messages (%d of them copies); a handshake has a few dozen: every complete cleartext handshake message that continues the message sequence is kept, whatever its type and whatever the handshake state", name, z.HandshakeCache, z.HandshakeCacheDup)
 	case z.ReplayDetectors > int(max(z.RemoteEpoch, z.LocalEpoch))+4:
 		rc.Violate("bloat:replay-windows", "%s allocated %d per-epoch replay windows at epoch %d/%d", name, z.ReplayDetectors, z.LocalEpoch, z.RemoteEpoch)
 	case z.LocalSeqEpochs > int(max(z.RemoteEpoch, z.LocalEpoch))+4 || z.RemoteSeqEpochs > int(max(z.RemoteEpoch, z.LocalEpoch))+4:
